@@ -34,6 +34,24 @@ def akai_dirs_image(names):
     return A.build_akai(A.model_from_spec(spec))[0], len(names) + 1
 
 
+def akai_crosslevel_image(name, order):
+    """ONE raw name used for a sample and for a volume (a name is cleaned differently for a file and for a directory):
+    file_first -- partition A holds the sample, partition B the volume; dir_first -- the other way round; nested -- the
+    volume holds a sample of its own name; siblings -- one partition holds the volume and, in another volume, the sample"""
+    smp = lambda nm, seq, sec: {"name": nm, "n": 12, "chain": [sec], "seq": seq}
+    vfile = {"name": "V", "dir": [3], "files": [smp(name, 1, 4), smp("KICK", 2, 5)]}
+    vdir = {"name": name, "dir": [3], "files": [smp("SNARE", 3, 4)]}
+    if order == "file_first":
+        parts = [{"vols": [vfile]}, {"vols": [vdir]}]
+    elif order == "dir_first":
+        parts = [{"vols": [vdir]}, {"vols": [vfile]}]
+    elif order == "nested":
+        parts = [{"vols": [{"name": name, "dir": [3], "files": [smp(name, 1, 4), smp("SNARE", 2, 5)]}]}]
+    else:
+        parts = [{"vols": [dict(vfile, dir=[3]), dict(vdir, dir=[6], files=[smp("SNARE", 3, 7)])]}]
+    return A.build_akai(A.model_from_spec({"parts": parts}))[0], 3
+
+
 def roland_image(level, names):
     k = len(names)
     if level == "sample":
@@ -145,6 +163,8 @@ def run_case(case):
             src = io.BytesIO(akai_files_image(names)[0])
         elif kind == "akai_dirs":
             src = io.BytesIO(akai_dirs_image(names)[0])
+        elif kind == "akai_crosslevel":
+            src = io.BytesIO(akai_crosslevel_image(names[0], case["order"])[0])
         elif kind == "akai_volalias":
             # two (three) volume entries naming ONE directory: the same samples under each volume name
             files = [{"name": "KICK", "n": 12, "chain": [4], "seq": 1}, {"name": "SNARE", "n": 14, "chain": [5], "seq": 2}]
@@ -229,7 +249,7 @@ class Check(CheckBase):
             "'..', absolute path into the watched area, quotes, control and non-ASCII characters, '(2)' forms, empty stems) as "
             "Roland sample / performance / volume names (also below the pseudo volume that collects orphan performances, with and "
             "without real volumes on the disk) and as cue TITLEs; export into <scratch>/w/deep/dest with the "
-            "parents watched; names differing only in the length of a blank run (8 cue titles k<=3, 5 AKAI names k=3); CDDA tracks without a single frame (6 title sets x every start-position pattern over 3 sectors with repeats x bins ending 0 / 1 / 3 / 4 / 2351 / 2352 bytes behind the last start: every track is one reported file); 201-entry AKAI volumes with a pair / a duplicate whose stem is owned by a sibling 2..200 places away; "
+            "parents watched; names differing only in the length of a blank run (8 cue titles k<=3, 5 AKAI names k=3); CDDA tracks without a single frame (6 title sets x every start-position pattern over 3 sectors with repeats x bins ending 0 / 1 / 3 / 4 / 2351 / 2352 bytes behind the last start: every track is one reported file); one raw name used for a sample and for a volume of one image (every AKAI name x file first / directory first / nested / side by side, plain and listed first); 201-entry AKAI volumes with a pair / a duplicate whose stem is owned by a sibling 2..200 places away; "
             "AKAI volumes whose entries share one directory; AKAI images of 26 / 27 / 30 / 34 partitions (generated partition names beyond 'Z'); singles, doubled names and neighbouring (thorough: all) pairs again on an image object whose root "
             "and first-level items were listed before the export. Oracle: nothing created outside dest; Exported lines pairwise distinct and as many as files; "
             "every component non-empty, [\\w -.#()] only, begins with \\w, does not end in space or dot. non-trivial = two "
@@ -315,6 +335,11 @@ class Check(CheckBase):
                     if len(set(pos)) == n and tail == Q.SECTOR:
                         continue            # every track holds frames: the plain cases above
                     cases.append({"kind": "cdda", "names": names, "positions": list(pos), "binlen": Q.SECTOR * pos[-1] + tail})
+        # one raw name at file level and at directory level of one image (both orders, nested, side by side), also listed first
+        for nm in sorted(set(AKAI_DIR) | set(AKAI_FILE)):
+            for order in ("file_first", "dir_first", "nested", "siblings"):
+                cases.append({"kind": "akai_crosslevel", "names": [nm], "order": order})
+                cases.append({"kind": "akai_crosslevel", "names": [nm], "order": order, "listed": True})
         # large directories (the uniqueness of a name must hold over the WHOLE directory, however it is processed): 201
         # siblings, an L/R pair somewhere and a sample (or a second pair) that already owns the pair's stem somewhere else
         def big(n, places):
